@@ -272,11 +272,17 @@ class Session:
     """one connection + executor; `qubits(k)` allocates k qubits and flushes, so that the state
     can be replaced by an arbitrary input state before the code under test runs"""
 
-    def __init__(self, simulate=True, max_qubits=8):
+    def __init__(self, simulate=True, max_qubits=8, nv=False):
+        """`nv`: the connection compiles with NVSubroutineTranspiler and the controller decodes the NV flavour
+        (generic hardware config, as tests/test_transpiling.py does)"""
         reset_globals()
         SVExecutor, PipeConnection = classes()
         self.ex = SVExecutor(simulate=simulate)
-        self.conn = PipeConnection(self.ex, max_qubits=max_qubits)
+        if nv:
+            from netqasm.sdk.transpile import NVSubroutineTranspiler
+            self.conn = PipeConnection(self.ex, nv=True, max_qubits=max_qubits, compiler=NVSubroutineTranspiler)
+        else:
+            self.conn = PipeConnection(self.ex, max_qubits=max_qubits)
         self.qs = []
 
     def qubits(self, k):
